@@ -7,6 +7,7 @@ leaseDuration,selfChanBalance,acctKey` (decimal, comma separated).
 
 * `consts`                                            → the regenerated constants the model uses
 * `prem <amt> <rate> <dur>`                           → `LumpSumPremium` | `ood`
+* `premi <amt> <rate> <dur>`                          → `Float64.premiumInt` (any int64 amount, amd64 out-of-range value)
 * `arch <state>`                                      → `State.Archived`
 * `tf <numChans> <feeRate> <ver>`                     → `EstimateTraderFee`
 * `rv <order> <baseFee> <feeRate> <ver>`              → `ReservedValue` | `panic` | `ood`
@@ -58,6 +59,10 @@ def run (args : List String) : String :=
     match a.toNat?, r.toNat?, d.toNat? with
     | some a, some r, some d =>
       if Pool.Float64.premiumInRange a r d then toString (Pool.Float64.premium a r d) else "ood"
+    | _, _, _ => "bad-op"
+  | ["premi", a, r, d] =>
+    match a.toInt?, r.toNat?, d.toNat? with
+    | some a, some r, some d => toString (Pool.Float64.premiumInt a r d)
     | _, _, _ => "bad-op"
   | ["arch", s] => match s.toNat? with
     | some s => toString (archived s)
